@@ -68,7 +68,10 @@ def handleBq (ws : List String) : Option String := do
   let colS := chunks nb n sc2
   let lhsRows := chunks k rows lhs
   -- Int8 mode is used by the public API only for single-row inputs; the hooks always use it.
-  let useInt8 := mode == "int8" && (isa != "api" || m == 1) && k != 0
+  -- MatMulNBits (`op-*`): rows == 1 → `BlockQuantizedGemm` with the requested accuracy level
+  -- (Int8 for accuracy_level 4), otherwise the f32 GEMM with a block-quantized RHS.
+  let useInt8 := ((mode == "int8" && (isa != "api" || m == 1)) || (mode == "op-int8" && m == 1))
+    && k != 0
   let unsignedLhs := isa != "generic"
   let mut out : List Int := []
   for row in lhsRows do
@@ -89,6 +92,7 @@ def errName : Err → String
   | .outputSizeMismatch => "OutputSizeMismatch"
   | .kSizeMismatch => "KSizeMismatch"
   | .quantBitsNotSupported => "QuantBitsNotSupported"
+  | .scalesShapeMismatch => "ScalesShapeMismatch"
 
 def handleErr (ws : List String) : Option String := do
   let kvs ← ws.mapM parseKv
@@ -107,10 +111,19 @@ def handleErr (ws : List String) : Option String := do
     | .error e => return s!"err:{errName e}"
     | .ok () => return "ok"
 
+def handleScales (ws : List String) : Option String := do
+  let kvs ← ws.mapM parseKv
+  let nat (k : String) : Option Nat := do (← field kvs k).toNat?
+  match checkNewScales (← nat "n") (← nat "nb") (← nat "bb") 4 (← nat "sn") (← nat "snb") with
+  | .error e => return s!"err:{errName e}"
+  | .ok _ => return "ok unwritten=0"
+
 def handle (line : String) : String :=
   match words line with
   | "bq" :: ws => (handleBq ws).getD "bad-request"
   | "bqerr" :: ws => (handleErr ws).getD "bad-request"
+  | "operr" :: _ => "err"
+  | "bqscales" :: ws => (handleScales ws).getD "bad-request"
   | "#" :: _ => "skip"
   | _ => "bad-request"
 
